@@ -139,3 +139,57 @@ func ZZMultiGet(n, ct int) {
 	}
 	vReach("end")
 }
+
+// ZZMultiGetIndex (C20): the same multi-shard comparison get over a SECONDARY INDEX: every shard answers with a
+// record whose secondary key (1 symbolic byte) may equal another shard's — a non-unique index — and whose primary
+// key is distinct per shard. The winner is the extreme in the global (secondary key, primary key) order, whatever
+// order the shards answer in (the answers are delivered in shard order and in reverse: same result).
+func ZZMultiGetIndex(n, ct int) {
+	run := func(reverse bool, sec []byte) (string, bool) {
+		var calls []model.GetCall
+		ids := []int64{1, 2, 3}[:n]
+		c := &clientImpl{shardManager: zzSM{ids}}
+		c.readBatchManager = batch.NewManager(context.Background(), func(context.Context, *int64) obatch.Batcher { return zzCapture{&calls} })
+		ch := make(chan GetResult, 4)
+		idx := "idx"
+		opts := &getOptions{comparisonType: proto.KeyComparisonType(ct)}
+		opts.secondaryIndexName = &idx
+		c.doMultiShardGet("k", opts, ch)
+		for j := 0; j < n; j++ {
+			i := j
+			if reverse {
+				i = n - 1 - j
+			}
+			pk := string([]byte{byte('a' + i)})
+			sk := string([]byte{sec[i]})
+			calls[i].Callback(&proto.GetResponse{Status: proto.Status_OK, Key: &pk, SecondaryIndexKey: &sk, Version: &proto.Version{}}, nil)
+		}
+		r, ok := <-ch
+		return r.Key, ok && r.Err == nil
+	}
+	sec := make([]byte, n)
+	for i := range sec {
+		sec[i] = vByte("secondary")
+		vAssume(sec[i] != '/')
+	}
+	k1, ok1 := run(false, sec)
+	k2, ok2 := run(true, sec)
+	vAssert("results-delivered", ok1 && ok2)
+	vAssert("winner-independent-of-arrival-order", k1 == k2)
+	// reference: extreme of (secondary, primary)
+	best := 0
+	for i := 1; i < n; i++ {
+		less := sec[i] < sec[best] || (sec[i] == sec[best] && i < best)
+		greater := sec[i] > sec[best] || (sec[i] == sec[best] && i > best)
+		if (ct == 1 || ct == 3) && greater {
+			best = i
+		}
+		if (ct == 2 || ct == 4) && less {
+			best = i
+		}
+	}
+	if ok1 {
+		vAssert("winner-is-the-extreme-in-(secondary,primary)-order", k1 == string([]byte{byte('a' + best)}))
+	}
+	vReach("end")
+}
